@@ -316,3 +316,24 @@ func hxStrongRead(d *hxDriver, v *hxView, sql string) ([]*proto.Values, bool) {
 	}
 	return nil, false
 }
+
+// hxSetup runs idempotent set-up statements on the settled leader, retrying when
+// leadership moves underneath (set-up happens before the scenario's own faults,
+// but elections under aggressive timeouts are still possible).
+func hxSetup(d *hxDriver, v *hxView, stmts ...string) bool {
+	for _, st := range stmts {
+		ok := false
+		for attempt := 0; attempt < 6 && !ok; attempt++ {
+			ldr := hxSettle(d, v, 30*time.Second)
+			if ldr == nil {
+				continue
+			}
+			ok = execOn(d.s, ldr, st)
+		}
+		if !ok {
+			return false
+		}
+	}
+	hxSettle(d, v, 30*time.Second)
+	return true
+}
